@@ -1,5 +1,64 @@
 import JF.Driver.Core
+import JF.Model.Occupancy
+/-
+component `occ`: sessions of the `SingleActiveCellOccupancy` model and the cell-boundary core.
+
+requests
+  init <ncells> <cap> <chargeGiven 0|1> (<id> <chargeBits> <cell>)*     -> dump
+  update <id> <chargeBits> <cell>                                        -> dump | err:<Exception>
+  poke <cell>        (white box: `_surplus[cell] = []` if the key is absent)           -> dump
+  boundary <L> <x> <v> <bMin> <bMax>            (float bit patterns)     -> <timeBits> <boundaryBits>
+dump format
+  O=<cell>:<ids>;… (non-empty cells, increasing cell index) S=<cell>:<ids>;<cell>:<ids>… Y=<yield_surplus ids> A=<cell>,<id>|none
+  (ids comma separated, in list order; the surplus dictionary in insertion order)
+`init` starts a fresh object, so one process can serve many sessions.
+-/
 namespace JF.Driver
-/-- component `occ` (stub until its model is written) -/
-def occComp : Comp := Comp.pure fun _ => "unimplemented"
+open JF JF.Occ
+
+structure OccSess where
+  n : Nat
+  chargeGiven : Bool
+  st : State
+
+private def ids (l : List Nat) : String := ",".intercalate (l.map toString)
+
+private def dump (z : OccSess) : String :=
+  let o := ";".intercalate ((List.range z.n).filterMap fun c =>
+    match getItem z.st c with
+    | [] => none
+    | l => some s!"{c}:{ids l}")
+  let s := ";".intercalate (z.st.surplus.map fun (k, l) => s!"{k}:{ids l}")
+  let y := ids (yieldSurplus z.st)
+  let a := match yieldActiveCells z.st with
+    | [(some c, some u)] => s!"{c},{u}"
+    | [(some c, none)] => s!"{c},None"
+    | _ => "none"
+  s!"O={o} S={s} Y={y} A={a}"
+
+private def parseUnits (chargeGiven : Bool) : List String → List UnitIn
+  | i :: q :: c :: t => ⟨nat! i, isRelevant Ops.float chargeGiven (fl q), nat! c⟩ :: parseUnits chargeGiven t
+  | _ => []
+
+def occComp : Comp where
+  σ := OccSess
+  init := ⟨0, false, State.empty 1⟩
+  step z
+    | "init" :: n :: cap :: cg :: rest =>
+        let g := cg == "1"
+        let z' : OccSess := ⟨nat! n, g, Occ.init (int! cap) (parseUnits g rest)⟩
+        (z', dump z')
+    | ["update", i, q, c] =>
+        match update z.st ⟨nat! i, isRelevant Ops.float z.chargeGiven (fl q), nat! c⟩ with
+        | .ok st => let z' := { z with st := st }; (z', dump z')
+        | .error e => (z, e.token)
+    | ["poke", c] =>
+        -- white box: plant an empty surplus list (unreachable through the public interface)
+        let st := { z.st with surplus := if (z.st.surplus.get? (nat! c)).isSome then z.st.surplus
+                                         else z.st.surplus ++ [(nat! c, [])] }
+        let z' := { z with st := st }; (z', dump z')
+    | ["boundary", l, x, v, bmin, bmax] =>
+        let r := timeToBoundary Ops.float (fl l) (fl x) (fl v) (fl bmin) (fl bmax)
+        (z, s!"{bits r.1} {bits r.2}")
+    | _ => (z, "bad-op")
 end JF.Driver
